@@ -171,6 +171,9 @@ func (w *World) onDoneEvent(pol, l int) func(failsafe.ExecutionDoneEvent[R]) {
 
 func (w *World) delayFn(pol int, vals []D) failsafe.DelayFunc[R] {
 	return func(exec failsafe.ExecutionAttempt[R]) time.Duration {
+		if d := w.sc.Policies[pol].DelayFnTakes; d > 0 {
+			sleep(d) // user code: a delay function that looks something up
+		}
 		n := w.nextDelayCall(pol)
 		d := vals[n%len(vals)]
 		e := Event{Kind: EvDelayFn, Pos: pol, A: int64(d), B: int64(n)}
